@@ -203,6 +203,155 @@ def r10_2(prog, tab):
     return r
 
 
+def compiler_status_functions(prog, tab):
+    """int functions of libasn1compiler that can really answer `this construct could not be compiled` (least fixpoint):
+    base: the function issues FATAL (arg->logger_cb(1, ...)), or is listed in the table as failing silently (confirmed by
+    reading), and has a negative constant return that is not merely the reaction to a callee's result; step: a negative
+    constant return guarded by the result of a callee in the set, or the callee's result returned / stored.  A
+    `return -1` that only reacts to a callee which itself can never fail does not put the function in the set, and
+    functions whose -1 is a value (native_long_sign, compute_extensions_start) never qualify."""
+    cand = {k: f for k, f in prog.funcs.items() if "libasn1compiler/" in f.relfile and f.ret_type == "int"}
+    silent = {x["function"] for x in tab.get("silent_failure_functions", [])}
+    cg = prog.callgraph()
+
+    def guard_callees(f, rb):
+        """callees whose result is tested by a branch that edge-dominates block rb (directly in the condition)"""
+        out = set()
+        for d in f.dominators().get(rb.id, ()):
+            tb = f.blocks[d]
+            if not tb.term or "cond" not in tb.term or len(tb.succ) < 2:
+                continue
+            if not any(f.edge_dominates(d, idx, rb.id) for idx in (0, 1)):
+                continue
+            for n in walk(tb.term["cond"].get("full_tree") or tb.term["cond"]["tree"]):
+                if n[0] == "call":
+                    out.add(n[2])
+        return out
+    neg = {}
+    for k, f in cand.items():
+        rows = []
+        for b, i, e in f.returns():
+            ex = e.get("expr")
+            if ex and isinstance(ex.get("const"), int) and ex["const"] < 0:
+                rows.append(guard_callees(f, b))
+        neg[k] = rows
+    out = set()
+    for k, f in cand.items():
+        diag = f.name in silent or any(e["k"] == "call" and e.get("slot") == "logger_cb" and e.get("args") and e["args"][0].get("const") == 1
+                                       for b, i, e in f.events())
+        if diag and any(not g for g in neg[k]):
+            out.add(k)
+    changed = True
+    while changed:
+        changed = False
+        names = {prog.funcs[k].name for k in out}
+        for k, f in cand.items():
+            if k in out:
+                continue
+            if any(g & names for g in neg[k]):
+                out.add(k)
+                changed = True
+                continue
+            for b, i, e, tg in cg.sites[k]:
+                if any(t in out for t in tg) and e.get("use") in ("returned", "assigned", "init"):
+                    out.add(k)
+                    changed = True
+                    break
+    return out
+
+
+def r10_7(prog, tab):
+    """No failure status inside the code generator is dropped.  For every call in libasn1compiler to a function that
+    can answer a negative status: the result is held, and assuming it is -1 the exploration reaches only failing
+    (non-zero) returns of the caller.  A dropped status means a construct the generator could not express is silently
+    left out of the emitted C (which then does not compile) while asn1c exits 0."""
+    from . import c11
+    r = Rule("R10.7", "a failure status of a code-generator function is never dropped: it reaches the caller's return value", floor=15)
+    sf = compiler_status_functions(prog, tab)
+    cg = prog.callgraph()
+    exc = {(x["function"], x["key"]): x["reason"] for x in tab.get("r10_7_exceptions", [])}
+    r.note("status functions of the code generator: %d" % len(sf))
+    for f in sorted(prog.funcs.values(), key=lambda f: f.key):
+        if "libasn1compiler/" not in f.relfile:
+            continue
+        classify = c11.classify_for(f, nonzero_fails=True)
+        seen = {}
+        for b, i, e, targets in sorted(cg.sites[f.key], key=lambda x: (x[2].get("line") or 0, x[0].id, x[1])):
+            tg = [t for t in targets if t in sf]
+            if not tg or "callee" not in e:
+                continue
+            seen[e["callee"]] = seen.get(e["callee"], 0) + 1
+            key = "%s#%d" % (e["callee"], seen[e["callee"]])
+            use = e.get("use")
+            if (f.name, key) in exc:
+                r.exc(f, key, exc[(f.name, key)], e["line"])
+                continue
+            # context: a NULL argument can switch the callee's failing paths off (`if(opt_ioc) { ... return -1; }`)
+            g = prog.funcs[tg[0]] if len(tg) == 1 else None
+            if g is not None:
+                names = {prog.funcs[k].name for k in sf}
+                off = None
+                for j, a in enumerate(e.get("args", [])):
+                    if a.get("const") != 0 or j >= len(g.params):
+                        continue
+                    pid_ = g.params[j]["id"]
+                    allguard = True
+                    nreal = 0
+                    for rb, ri, re_ in g.returns():
+                        ex = re_.get("expr")
+                        if not (ex and isinstance(ex.get("const"), int) and ex["const"] < 0):
+                            continue
+                        # a return that only reacts to a callee that cannot fail is not a real failure
+                        gc = set()
+                        guarded_by_param = False
+                        for d in g.dominators().get(rb.id, ()):
+                            tb = g.blocks[d]
+                            if not tb.term or "cond" not in tb.term or len(tb.succ) < 2:
+                                continue
+                            if g.edge_dominates(d, 0, rb.id) and is_var(strip_casts(tb.term["cond"]["tree"]), pid_):
+                                guarded_by_param = True
+                            if any(g.edge_dominates(d, idx, rb.id) for idx in (0, 1)):
+                                gc |= {n[2] for n in walk(tb.term["cond"].get("full_tree") or tb.term["cond"]["tree"]) if n[0] == "call"}
+                        if gc and not (gc & names):
+                            continue
+                        nreal += 1
+                        if not guarded_by_param:
+                            allguard = False
+                    if nreal and allguard:
+                        off = g.params[j]["id"].split("@")[0]
+                if off:
+                    r.ok(f, key, "%s cannot fail here: its failing returns all lie under `if(%s)` and the argument is NULL" % (e["callee"], off), e["line"])
+                    continue
+            if use in ("discarded", "voidcast"):
+                r.bad(f, key, "status of %s is discarded: when it fails, what it was to emit is silently missing from the generated code" % e["callee"], e["line"])
+                continue
+            if use == "returned":
+                r.ok(f, key, "status returned to the caller", e["line"], nontrivial=False)
+                continue
+            if f.ret_type == "void":
+                r.bad(f, key, "status of %s consumed in a void function: it cannot propagate" % e["callee"], e["line"])
+                continue
+            subj = assume.subject_of_call(e, None)
+            if subj is None:
+                r.bad(f, key, "status of %s is used as `%s` and never tested" % (e["callee"], use), e["line"])
+                continue
+            bad = None
+            for fe in (False, True):
+                hits = assume.explore(f, b, i, subj, -1, classify, origin_callid=e.get("id"), from_entry=fe, rel_facts_only=True)
+                hits = [h for h in hits if h[0] != "abort"]
+                bad = next((h for h in hits if h[0] != "fail"), None)
+                if bad is None:
+                    break
+            if bad is None:
+                r.ok(f, key, "assuming -1, every return reached is a failing one", e["line"])
+            else:
+                kind, rb, ri, re_, path, lost = bad
+                r.bad(f, key, "assuming %s returned -1, control reaches the return at line %s (%s)%s" % (
+                    e["callee"], re_.get("line"), kind, " after the status variable was overwritten" if lost else ""), e["line"],
+                    witness={"path": guards.path_lines(f, list(path))})
+    return r
+
+
 def run(ctx):
     prog = ctx.prog("K")
     tab = load_tables("c10")
@@ -217,6 +366,7 @@ def run(ctx):
         return e["k"] == "call" and e.get("slot") == "logger_cb" and e.get("args") and e["args"][0].get("const") == 1
     rules.append(c11.r11_3(prog, tab, rid="R10.5", where="libasn1compiler/", fatal=compiler_fatal, floor=15, exckey="r10_5_exceptions", nonzero_fails=True))
     rules.append(c11.r11_3(prog, load_tables("c11"), rid="R10.6", where="libasn1fix/", floor=60))
+    rules.append(r10_7(prog, tab))
     return rules
 
 
